@@ -349,6 +349,10 @@ func VH_C18_Encap(p []int) {
 	} else {
 		verifAssert(len(cfg.enc) == before+1, "pair-accepted")
 	}
+	// an empty or over-long set of characters adds nothing usable
+	before = len(cfg.enc)
+	set([]string{})
+	verifAssert(len(cfg.enc) == before, "empty-set-adds-nothing")
 	set()
 	verifAssert(len(cfg.enc) == 0, "cleared")
 	verifAssert(!isEncap(), "IsEncap-cleared")
